@@ -251,7 +251,7 @@ def c14d(ctx):
     for m in ('_render_raise_exceptions', '_render_capture_source_errors'):
         f = ctx.fn('%s:LayerRenderer.%s' % (WMS, m))
         gg = f.cfg
-        adds = gg.find(lambda x: is_call(x, 'layer_merger.add') and len(x.args) >= 2)
+        adds = gg.find(lambda x: is_call(x, 'layer_merger.add') and len(x.args) + len(x.keywords) >= 2)
         lp = [s for s in f.walk() if isinstance(s, ast.For) and is_call(s.iter, 'imap')]
         ok = len(adds) == 1 and len(lp) == 1 and inside(adds[0][1], lp[0]) and same(lp[0].iter.args[1], 'render_layers')
         ctx.check(ok, 'LayerRenderer.%s:adds-in-order' % m, 'each rendered layer image is added inside the in-order loop over render_layers', f,
